@@ -99,12 +99,12 @@ func (w *world) cfgTok() string {
 type env struct {
 	w    *world
 	cl   *ipfscluster.Cluster
-	cons *common.FakeConsensus
+	cons *common.FaultConsensus
 }
 
 func build(w *world, pre []*api.Pin) *env {
 	ctx := context.Background()
-	cons := common.NewFakeConsensus()
+	cons := common.NewFaultConsensus()
 	for _, p := range pre {
 		if err := cons.St.Add(ctx, p); err != nil {
 			panic(err)
@@ -209,7 +209,15 @@ func logTok(l []string) string {
 func (e *env) step(out *common.Out, op []string) {
 	pre := common.PinsetTok(e.cons.Pins())
 	e.cons.TakeLog()
-	res := e.exec(op)
+	// a trailing "!k": the k-th consensus call of this API call fails
+	call := op
+	if n := len(op); n > 0 && strings.HasPrefix(op[n-1], "!") {
+		k, _ := strconv.Atoi(op[n-1][1:])
+		e.cons.Arm(k)
+		call = op[:n-1]
+	}
+	res := e.exec(call)
+	e.cons.Arm(-1)
 	post := common.PinsetTok(e.cons.Pins())
 	out.Line("C04 %s %s %s => %s %s %s", e.w.cfgTok(), pre, strings.Join(op, " "), res, post, logTok(e.cons.TakeLog()))
 }
@@ -245,12 +253,18 @@ func genWorld(r *common.Rng) *world {
 	for k := 0; k < 6; k++ {
 		w.paths[k] = k
 	}
-	w.paths[6] = 8 // path to the meta pin
+	w.paths[6] = 8  // path to the meta pin
+	w.paths[7] = 9  // … to its cluster-DAG pin
+	w.paths[8] = 10 // … to a shard pin (path 9 does not resolve: Resolve error / timeout)
 	// cluster-DAG block of cid 9 links the shards; sometimes absent (BlockGet fails)
-	switch x := r.Intn(10); {
-	case x < 7:
+	switch x := r.Intn(12); {
+	case x < 6:
 		w.blocks[9] = []int{10, 11}
-	case x < 9:
+	case x == 6:
+		w.blocks[9] = []int{10, 11, 7} // lists a shard that is not in the pinset
+	case x == 7:
+		w.blocks[9] = []int{}
+	case x < 10:
 		// the block exists (the shards ARE the content of the meta pin) but the daemon cannot return it
 		w.lost[9] = []int{10, 11}
 	}
@@ -393,7 +407,23 @@ func mutateOpts(r *common.Rng, w *world, o []string) []string {
 	return o
 }
 
+// withFault sometimes makes the k-th consensus call of the op fail.
+func withFault(r *common.Rng, op []string) []string {
+	if r.Chance(1, 4) {
+		return append(op, "!"+strconv.Itoa(r.Intn(6)))
+	}
+	return op
+}
+
 func genOp(r *common.Rng, e *env) []string {
+	op := genOp0(r, e)
+	if (op[0] == "pin" || op[0] == "update" || op[0] == "pinpath") && r.Chance(1, 12) {
+		op = append(op, "!0")
+	}
+	return op
+}
+
+func genOp0(r *common.Rng, e *env) []string {
 	pins := e.cons.Pins()
 	var dataToks []string
 	for _, p := range pins {
@@ -419,7 +449,7 @@ func genOp(r *common.Rng, e *env) []string {
 		}
 		return []string{"pin", strings.Split(t, "/")[0], strings.Join(o, "/")}
 	case x < 52:
-		return []string{"pinpath", strconv.Itoa(r.Intn(8)), strings.Join(randOpts(r, e.w), "/")}
+		return []string{"pinpath", strconv.Itoa(r.Intn(10)), strings.Join(randOpts(r, e.w), "/")}
 	case x < 62:
 		o := randOpts(r, e.w)
 		o[6] = "-"
@@ -429,9 +459,9 @@ func genOp(r *common.Rng, e *env) []string {
 		if len(pins) > 0 && r.Chance(2, 3) {
 			c = common.CidIndex(pins[r.Intn(len(pins))].Cid, common.PinUniverse)
 		}
-		return []string{"unpin", strconv.Itoa(c)}
+		return withFault(r, []string{"unpin", strconv.Itoa(c)})
 	case x < 80:
-		return []string{"unpinpath", strconv.Itoa(r.Intn(8))}
+		return withFault(r, []string{"unpinpath", strconv.Itoa(r.Intn(10))})
 	case x < 88: // build (parts of) the sharded group 8 (meta) -> 9 (cluster DAG) -> 10, 11 (shards)
 		switch r.Intn(4) {
 		case 0:
@@ -510,6 +540,10 @@ func main() {
 		sc.Buffer(make([]byte, 1<<20), 1<<24)
 		for sc.Scan() {
 			f := strings.Fields(sc.Text())
+			if len(f) >= 8 && f[0] == "C04" && f[1] == "conc" {
+				replayConc(out, f)
+				continue
+			}
 			if len(f) < 7 || f[0] != "C04" {
 				continue
 			}
@@ -538,6 +572,10 @@ func main() {
 		}
 	}
 	root := common.NewRng(common.Seed())
+	if a.Extra["suite"] == "conc" {
+		genConc(out, root, a)
+		return
+	}
 	for k := 0; k < hist; k++ {
 		if a.Only >= 0 && k != a.Only {
 			continue
@@ -563,7 +601,7 @@ func main() {
 				pre = append(pre, common.PinOf(strings.Join([]string{strconv.Itoa(r.Intn(6)), "d", o[0], o[1], o[2], depth, o[3],
 					al, o[4], common.MetaCanon(o[5]), "-", o[7], "-", "-"}, "/")))
 			}
-			if r.Chance(1, 2) {
+			if r.Chance(2, 3) {
 				pre = append(pre, common.PinOf("10/s/1:2/1/r/1/500/0/z/-/-/-/-/-"), common.PinOf("11/s/1:2/1/r/1/500/1/z/-/-/-/10/-"),
 					common.PinOf("9/c/-1:-1/1/d/0/0/-/z/-/-/-/8/-"), common.PinOf("8/m/0:0/1/r/-1/0/-/z/-/-/-/9/-"))
 			}
